@@ -31,6 +31,26 @@ def Err.name : Err → String
   | .invalidPubKeyHashLength => "InvalidPubKeyHashLength"
   | .invalidScriptHashLength => "InvalidScriptHashLength"
 
+/-! ### constants (each is tied to the Rust source by `Ldk.C18.model_constants_match_source`) -/
+
+def tagPaymentHash : U5 := 1
+def tagDescription : U5 := 13
+def tagPayeePubKey : U5 := 19
+def tagDescriptionHash : U5 := 23
+def tagExpiryTime : U5 := 6
+def tagMinFinalCltvExpiryDelta : U5 := 24
+def tagFallback : U5 := 9
+def tagPrivateRoute : U5 := 3
+def tagPaymentSecret : U5 := 16
+def tagPaymentMetadata : U5 := 27
+def tagFeatures : U5 := 5
+/-- de.rs::SIGNATURE_LEN_5 -/
+def sigLen5 : Nat := 104
+/-- lib.rs::MAX_LENGTH -/
+def maxLength : Nat := 7089
+/-- the unit of an amount without SI prefix, in pico-BTC (lib.rs::amount_pico_btc) -/
+def noPrefixUnit : Nat := 1000000000000
+
 /-! ### human-readable part -/
 
 inductive Currency | bitcoin | testnet | regtest | simnet | signet
@@ -140,7 +160,7 @@ def RawHrp.amountPico (h : RawHrp) : Option Nat :=
   match h.rawAmount with
   | none => none
   | some v =>
-    let p := v * (match h.si with | some s => s.multiplier | none => 1000000000000)
+    let p := v * (match h.si with | some s => s.multiplier | none => noPrefixUnit)
     if p > u64Max then none else some p
 
 /-- mirrors lib.rs::Bolt11Invoice::check_amount: a pico-BTC amount that is not a whole number of
@@ -274,21 +294,21 @@ def viaBytes (p : List U5) : List U5 := bytesToFes (fesToBytes p)
 /-- mirrors de.rs::FromBase32 for TaggedField and the error routing in parse_tagged_parts
     (`Skip`, `InvalidSliceLength`, `Bech32Error` ⇒ unknown; every other error aborts the parse) -/
 def interpField (tag : U5) (p : List U5) : Except Err Interp :=
-  if tag == 1 then        -- p: payment hash
+  if tag == tagPaymentHash then        -- p: payment hash
     if p.length != 52 then .ok .unknown else .ok (.known (viaBytes p))
-  else if tag == 13 then  -- d: description
+  else if tag == tagDescription then  -- d: description
     let b := fesToBytes p
     if validUtf8 b.length b then .ok (.known (bytesToFes b)) else .error .descriptionDecodeError
-  else if tag == 19 then  -- n: payee public key
+  else if tag == tagPayeePubKey then  -- n: payee public key
     if p.length != 53 then .ok .unknown else
     let b := fesToBytes p
     if validPubkey b then .ok (.known (bytesToFes b)) else .error .malformedSignature
-  else if tag == 23 then  -- h: description hash
+  else if tag == tagDescriptionHash then  -- h: description hash
     if p.length != 52 then .ok .unknown else .ok (.known (viaBytes p))
-  else if tag == 6 || tag == 24 then  -- x: expiry, c: min final cltv expiry delta
+  else if tag == tagExpiryTime || tag == tagMinFinalCltvExpiryDelta then  -- x: expiry, c: min final cltv expiry delta
     let v := parseIntBe p
     if v > u64Max then .error .integerOverflowError else .ok (.known (encodeIntBe v))
-  else if tag == 9 then   -- f: fallback address
+  else if tag == tagFallback then   -- f: fallback address
     match p with
     | [] => .error .unexpectedEndOfTaggedFields
     | ver :: rest =>
@@ -301,16 +321,16 @@ def interpField (tag : U5) (p : List U5) : Except Err Interp :=
       else if ver == 18 then
         if b.length != 20 then .error .invalidScriptHashLength else .ok (.known (ver :: bytesToFes b))
       else .ok .unknown
-  else if tag == 3 then   -- r: private route
+  else if tag == tagPrivateRoute then   -- r: private route
     let b := fesToBytes p
     if b.length % 51 != 0 then .error .unexpectedEndOfTaggedFields
     else if allChunks 51 (fun hop => validPubkey (hop.take 33)) b.length b then .ok (.known (bytesToFes b))
     else .error .malformedSignature
-  else if tag == 16 then  -- s: payment secret
+  else if tag == tagPaymentSecret then  -- s: payment secret
     if p.length != 52 then .ok .unknown else .ok (.known (viaBytes p))
-  else if tag == 27 then  -- m: payment metadata
+  else if tag == tagPaymentMetadata then  -- m: payment metadata
     .ok (.known (viaBytes p))
-  else if tag == 5 then   -- 9: features (big-endian bit field; leading zero symbols are trimmed)
+  else if tag == tagFeatures then   -- 9: features (big-endian bit field; leading zero symbols are trimmed)
     .ok (.known (p.dropWhile (· == 0)))
   else .ok .unknown
 
@@ -391,7 +411,7 @@ def bech32Decode (s : Bytes) : Option (Bytes × List U5) :=
     let syms := dataAscii.filterMap (fun c => charToSym (Char.ofNat c.toNat))
     if syms.length != dataAscii.length then none else
     if hrp.isEmpty || hrp.length > 83 || hrp.any (fun b => b < 33 || b > 126) then none else
-    if s.length > 7089 then none else
+    if s.length > maxLength then none else
     if syms.length < 6 then none else
     let hrpL := hrp.map toLower
     if verifyChecksum hrpL syms then some (hrpL, syms.take (syms.length - 6)) else none
@@ -401,16 +421,16 @@ def parseSigned (s : Bytes) : Except Err SignedRaw :=
   match bech32Decode s with
   | none => .error .bech32Error
   | some (hrpBytes, data) =>
-    if data.length < 104 then .error .tooShortDataPart else
+    if data.length < sigLen5 then .error .tooShortDataPart else
     match parseHrp (hrpBytes.map (fun b => Char.ofNat b.toNat)) with
     | .error e => .error e
     | .ok hrp =>
-      let d := data.take (data.length - 104)
+      let d := data.take (data.length - sigLen5)
       if d.length < 7 then .error .tooShortDataPart else
       match parseTagged d.length (d.drop 7) with
       | .error e => .error e
       | .ok fields =>
-        let sig := data.drop (data.length - 104)
+        let sig := data.drop (data.length - sigLen5)
         if sigOk sig then .ok { hrp, timestamp := parseIntBe (d.take 7), fields, sig }
         else .error .malformedSignature
 
@@ -435,5 +455,57 @@ def signedPreimage (hrp : Bytes) (data : List U5) : Bytes :=
 /-- mirrors lib.rs::RawBolt11Invoice::signable_hash over a hash function `H` (SHA-256 in the driver) -/
 def SignedRaw.signableHash (H : Bytes → Bytes) (i : SignedRaw) : Bytes :=
   H (signedPreimage i.hrpBytes i.dataSyms)
+
+/-! ### semantic checks of `Bolt11Invoice::from_signed` -/
+
+/-- mirrors lib.rs::Bolt11SemanticError (the variants `from_signed` can return) -/
+inductive SemErr
+  | noPaymentHash | multiplePaymentHashes | noDescription | multipleDescriptions
+  | noPaymentSecret | multiplePaymentSecrets | invalidFeatures | invalidSignature | impreciseAmount
+  deriving DecidableEq, Repr
+
+def SemErr.name : SemErr → String
+  | .noPaymentHash => "NoPaymentHash" | .multiplePaymentHashes => "MultiplePaymentHashes"
+  | .noDescription => "NoDescription" | .multipleDescriptions => "MultipleDescriptions"
+  | .noPaymentSecret => "NoPaymentSecret" | .multiplePaymentSecrets => "MultiplePaymentSecrets"
+  | .invalidFeatures => "InvalidFeatures" | .invalidSignature => "InvalidSignature"
+  | .impreciseAmount => "ImpreciseAmount"
+
+def countKnown (fs : List Field) (tags : List U5) : Nat :=
+  (fs.filter (fun f => f.known && tags.contains f.tag)).length
+
+/-- even (required) bits the library knows in `Bolt11InvoiceContext`: var_onion 8, payment_secret 14,
+    basic_mpp 16, payment_metadata 48, trampoline 56 -- mirrors lightning-types features.rs -/
+def knownEvenBits : List Nat := [8, 14, 16, 48, 56]
+
+/-- mirrors features.rs::requires_unknown_bits on the feature bit field read as a number -/
+def requiresUnknownBits (n : Nat) (nbits : Nat) : Bool :=
+  (List.range nbits).any (fun i => i % 2 == 0 && n.testBit i && !knownEvenBits.contains i)
+
+/-- mirrors lib.rs::check_payment_secret -/
+def checkPaymentSecret (fs : List Field) : Except SemErr Unit :=
+  let n := countKnown fs [tagPaymentSecret]
+  if n < 1 then .error .noPaymentSecret else if n > 1 then .error .multiplePaymentSecrets else .ok ()
+
+/-- mirrors lib.rs::Bolt11Invoice::from_signed: check_field_counts, check_feature_bits,
+    check_signature (ECDSA is a trusted dependency: its verdict is the parameter `sigValid`),
+    check_amount — in this order -/
+def fromSigned (sigValid : Bool) (i : SignedRaw) : Except SemErr Unit :=
+  let np := countKnown i.fields [tagPaymentHash]
+  if np < 1 then .error .noPaymentHash else if np > 1 then .error .multiplePaymentHashes else
+  let nd := countKnown i.fields [tagDescription, tagDescriptionHash]
+  if nd < 1 then .error .noDescription else if nd > 1 then .error .multipleDescriptions else
+  match checkPaymentSecret i.fields with
+  | .error e => .error e
+  | .ok _ =>
+    match i.fields.find? (fun f => f.known && f.tag == tagFeatures) with
+    | none => .error .invalidFeatures
+    | some f =>
+      let n := parseIntBe f.payload
+      if requiresUnknownBits n (5 * f.payload.length) then .error .invalidFeatures
+      else if !(n.testBit 14 || n.testBit 15) then .error .invalidFeatures
+      else if !sigValid then .error .invalidSignature
+      else if !i.hrp.amountOk then .error .impreciseAmount
+      else .ok ()
 
 end Ldk.Bolt11
